@@ -15,6 +15,11 @@ def _scales():
 Server = collections.namedtuple('Server', 'service_endpoint')
 
 
+class StubCloseError(Exception):
+  """Raised by a stub channel's Close() when the scenario asks for it (the channel is closed all the same)."""
+
+
+
 def make_endpoint(i):
   from scales.loadbalancer.zookeeper import Endpoint
   return Endpoint('h%d' % i, 1000 + i)
@@ -100,6 +105,8 @@ def make_stub_channel_class():
       if self.close_event is None:
         self.close_event = self.registry.tick()
       self._state = C.ChannelState.Closed
+      if getattr(self, 'close_raises', False):
+        raise StubCloseError('closing channel #%d failed' % self.serial)
 
     def AsyncProcessRequest(self, sink_stack, msg, stream, headers):
       rid = msg.properties.get('__rid')
